@@ -198,7 +198,8 @@ def messageSx (m : Message) : Sx :=
     response (ordinals of the CounterPair); unanswered requests stay in the matcher -/
 def observe (cb sb : Bytes) : Sx :=
   let reqs := Wire.parseAll true (cb.length + 1) cb
-  let resps := Wire.parseAll false (sb.length + 1) sb
+  -- an interim response (1xx other than 101 Switching Protocols) is not the answer: it is passed over
+  let resps := (Wire.parseAll false (sb.length + 1) sb).filter fun m => !(100 ≤ m.status && m.status < 200 && m.status != 101)
   let items := reqs.zip resps
   .list [.list (.atom "items" :: items.map fun (q, r) => .list [messageSx q, messageSx r, .atom "cs"]),
          .list [.atom "left", Sx.ofNat (reqs.length - items.length), Sx.ofNat (resps.length - items.length)]]
@@ -221,6 +222,8 @@ structure Msg where
   headers : List (Bytes × Bytes) := []
   framing : BodyFraming := .none
   body : Bytes := []
+  /-- interim responses (1xx other than 101) the server sends in front of this response -/
+  pre : List Nat := []
   deriving Repr
 
 def dec (n : Nat) : Bytes := bytesOfString (toString n)
@@ -234,7 +237,7 @@ def chunksOf : Nat → Bytes → Bytes
       let n := min 7 b.length
       hex n ++ crlf ++ b.take n ++ crlf ++ chunksOf fuel (b.drop n)
 
-def encMsg (m : Msg) : Bytes :=
+def encMsgCore (m : Msg) : Bytes :=
   let start := if m.isRequest then m.method ++ [32] ++ m.target ++ bytesOfString " HTTP/1." ++ dec m.minor
     else bytesOfString "HTTP/1." ++ dec m.minor ++ [32] ++ dec m.status ++ [32] ++ m.reason
   let hdrs := (m.headers.map fun (n, v) => n ++ bytesOfString ": " ++ v ++ crlf).flatten
@@ -244,6 +247,13 @@ def encMsg (m : Msg) : Bytes :=
      | .chunked => bytesOfString "Transfer-Encoding: chunked" ++ crlf ++ crlf ++ chunksOf (m.body.length + 1) m.body
      | .close => crlf ++ m.body
      | .none => crlf)
+
+/-- the message on the wire: its interim responses (if any) in front of it -/
+def encMsg (m : Msg) : Bytes :=
+  (m.pre.map fun st => bytesOfString "HTTP/1.1 " ++ dec st ++ bytesOfString " Interim" ++ crlf ++ crlf).flatten ++ encMsgCore m
+
+theorem encMsg_nopre (m : Msg) (h : m.pre = []) : encMsg m = encMsgCore m := by
+  simp [encMsg, h]
 
 /-- what must be reported for an exchange -/
 def expectedItem (q r : Msg) : Sx :=
